@@ -3,10 +3,10 @@
 into /verif/seeded/<ID>-m<k>/ resp. /verif/seeded/<ID>-r2-m<k>/ ."""
 import json, os, shutil, sys, glob
 DET = json.load(open('/verif/tools/seeded_detection.json'))
-for d in sorted(glob.glob('/tmp/mut-c*/m*') + glob.glob('/tmp/mut2-c*/m*') + glob.glob('/tmp/mut3-c*/m*') + glob.glob('/tmp/mut4-c*/m*') + glob.glob('/tmp/mut6-c*/m*')):
+for d in sorted(glob.glob('/tmp/mut-c*/m*') + glob.glob('/tmp/mut2-c*/m*') + glob.glob('/tmp/mut3-c*/m*') + glob.glob('/tmp/mut4-c*/m*') + glob.glob('/tmp/mut6-c*/m*') + glob.glob('/tmp/mut7-c*/m*')):
     base = os.path.basename(os.path.dirname(d))
-    rnd = 6 if base.startswith('mut6-') else 4 if base.startswith('mut4-') else 3 if base.startswith('mut3-') else 2 if base.startswith('mut2-') else 1
-    pid = base.replace('mut6-','').replace('mut4-','').replace('mut3-','').replace('mut2-','').replace('mut-','').upper()
+    rnd = 7 if base.startswith('mut7-') else 6 if base.startswith('mut6-') else 4 if base.startswith('mut4-') else 3 if base.startswith('mut3-') else 2 if base.startswith('mut2-') else 1
+    pid = base.replace('mut7-','').replace('mut6-','').replace('mut4-','').replace('mut3-','').replace('mut2-','').replace('mut-','').upper()
     k = os.path.basename(d)
     key = f'{pid}-{k}' if rnd == 1 else f'{pid}-r{rnd}-{k}'
     vf = os.path.join(d,'verified.json')
